@@ -60,6 +60,15 @@ CHECKS["C05"] = dict(level="other", design="DESIGN 5/C05", engine="E1",
    text="The compiled _POSITIONAL_INPUT_NAME_RE is parsed with re._parser into a z3 regex and the nested closure _should_always_keep is translated from its live AST into a z3 string predicate; z3 decides, over all printable-ASCII strings up to length 12, that every positional name is always kept and that the binder's names in_<i> / in_<i>_nchw are positional names; witnesses are replayed through to_onnx with an unused argument. Input/output count and order, rank, static dims, element-type class, user symbols and requested names are compared with jax.eval_shape on ~150 exported programs incl. unused inputs, outputs that are inputs, duplicated outputs, pytrees, names, layout flags.",
    note="Partial: the custom-naming functions could not be executed by CrossHair (its isinstance interception fails inside onnx_ir Protocols), so requested names are covered only by enumerated programs; part 3 is direct evaluation, not a solver query. AST translator subset is stated; unsupported source is a harness error.")
 
+CHECKS["C09"] = dict(level="translation_validation", design="DESIGN 5/C09",
+   technique="translation validation at double precision: z3 equivalence with non-identity uninterpreted roundings for every precision-lowering cast; typed recursive walk for the flag-off side condition",
+   text="enable_double_precision=True exports (registry f64 variants, the elementwise family, and programs with constants as Python scalars / numpy f32,f64 arrays / module parameters / inside cond, scan, loop and function bodies) are compared for all real inputs with the jaxpr traced under x64, comparator 1e-10: a float32 detour or a constant that went through float32 is a satisfiable difference, replayed at 1e-12 on inputs moved off the float32 grid. With the flag off every exported model is walked recursively for DOUBLE tensors, casts and constants. The x64 flag is checked on all exit paths of both context managers.",
+   note="ORT double-kernel accuracy outside the claim; Real arithmetic abstraction.")
+CHECKS["C11"] = dict(level="translation_validation", design="DESIGN 5/C11",
+   technique="opset-versioned encodability against onnx.defs + z3 equivalence (C01 query) of the export at each target opset",
+   text="For each target opset (quick 21/23/26, thorough 21..27) and each program the model must declare that opset and every node, recursively and in function bodies, must resolve to an operator definition existing at that opset with the attributes and input arity used (a refusal is reported only when onnx.checker rejects the model too); the model is then proved equivalent to the JAX jaxpr for all inputs with the opset-versioned evaluator. An explicit export error is accepted. Value differences present at every opset belong to C01 and are not repeated.",
+   note="Opset axis enumerated (six/seven values); opset 27 cannot be loaded by the installed ORT: structural + symbolic only.")
+
 for _k in ("C05", "C13", "C17", "C18", "C19"):
     CHECKS[_k]["engine"] = "E1"
 
